@@ -1,6 +1,6 @@
 CONSTANTS
-  K = "set"
-  Variant = "orig"
+  K = "wa"
+  Variant = "aliasclear"
   Size = "q"
 INIT Init
 NEXT Next
